@@ -626,34 +626,40 @@ pub fn gen_streams(out: &mut Out, thorough: bool, opts: &[&str], focus: &str) {
         out.count_n("stream_char_aliasing", n);
         out.exhaustive.push("every character position of 3 documents covering every token type x (the character + 0x100/0x200/0x300/0x2000/0xff00/0x10000/0x20000/0x100000, and 20 Unicode lookalikes of whitespace, digits, letters, quotes, separators, controls): replaced, and every third also inserted".into());
     }
-    // (k) long tokens around internal size thresholds (inline/heap switches of SmallString/SmallVec,
-    // stack buffers, chunked copies): strings and keys of L+d plain characters followed by a
-    // 1/2/3/4-byte character, an escape or a surrogate pair, for L at the usual powers of two;
-    // numbers with that many digits in each part
+    // (k) long tokens across internal size thresholds (inline/heap switches of SmallString/SmallVec,
+    // stack buffers, chunked copies — whatever their size is): strings and keys with EVERY plain-run
+    // length 0..N followed by a 1/2/3/4-byte character, an escape or a surrogate pair and then a
+    // narrow character; numbers with that many digits in each part at selected lengths
     {
         let mut n = 0u64;
-        let thresholds: &[usize] = if thorough { &[8, 16, 24, 32, 64, 128, 256, 512, 1024, 4096] } else { &[16, 32, 64, 128, 256] };
+        let full: usize = if thorough { 1100 } else { 300 };
+        let sparse: usize = if thorough { 4200 } else { 700 };
         let tails = ["", "é", "€", "😀", "\\n", "\\u00e9", "\\ud83d\\ude00", "\u{7f}", "é€😀é€😀"];
-        for &thr in thresholds {
-            for d in 0..8usize {
-                let len = thr + d - 4;
-                for (ti, tail) in tails.iter().enumerate() {
-                    for fill in ["a", "é"] {
-                        if fill == "é" && (ti % 3 != 0) { continue; }
-                        let body: String = fill.repeat(len);
-                        let o = opts[(thr + d + ti) % opts.len()];
-                        l(req_str(&format!("\"{}{}z\"", body, tail), o), out);
+        let mut len = 0usize;
+        while len <= sparse {
+            for (ti, tail) in tails.iter().enumerate() {
+                if len > full && ti % 3 != 1 { continue; }
+                for fill in ["a", "é"] {
+                    if fill == "é" && (ti % 3 != 0 || len > full / 2) { continue; }
+                    let body: String = fill.repeat(len);
+                    let o = opts[(len + ti) % opts.len()];
+                    l(req_str(&format!("\"{}{}zy\"", body, tail), o), out);
+                    n += 1;
+                    if (len + ti) % 3 == 0 {
                         l(req_str(&format!("{{\"{}{}z\":[\"{}\"],\"{}{}z\":0}}", body, tail, body, body, tail), o), out);
-                        n += 2;
+                        n += 1;
                     }
                 }
-                let digits: String = "7".repeat(len);
-                l(req_str(&format!("[-{}.{}e+{},{}]", digits, digits, "1".repeat(len.min(40)), digits), opts[0]), out);
+            }
+            if len % 8 == 0 || (len <= 70) {
+                let digits: String = "7".repeat(len.max(1));
+                l(req_str(&format!("[-{}.{}e+{},{}]", digits, digits, "1".repeat(len.clamp(1, 40)), digits), opts[0]), out);
                 n += 1;
             }
+            len += if len < full { 1 } else { 7 };
         }
-        out.count_n("stream_threshold_straddle", n);
-        out.exhaustive.push(format!("strings, keys (also duplicated, looked up) and numbers whose plain run has length L-4..L+3 for L in {:?}, followed by each of 9 tails (1/2/3/4-byte characters, escapes, a surrogate pair)", thresholds));
+        out.count_n("stream_every_run_length", n);
+        out.exhaustive.push(format!("strings and keys (also duplicated, looked up) whose plain run has EVERY length 0..{} (then every 7th up to {}), followed by each of 9 tails (1/2/3/4-byte characters, escapes, a surrogate pair) and narrow characters; numbers with matching digit counts", full, sparse));
     }
     // (l) a pending high surrogate followed by EVERY \\uXXXX code unit: where exactly the low-surrogate
     // range begins and ends decides pair / lone high + something / error
